@@ -89,6 +89,17 @@ UNIT = Unit(
         Fn(C_, "inner", impl="CoinMapping", mode="assume"),
         Fn("src/state/applytx.rs", "apply_tx_batch_impl", mode="assume", **ap_batch_impl()),
         Fn(S, "apply_tx_batch", impl="UnsealedState", home="C02", implicit_props=("C09", "C02"), **st_apply_tx_batch()),
+        Fn(C_, "get_coin", impl="CoinMapping", mode="assume", **cm_get_coin()),
+        Fn("lib/tip911-stakeset/src/lib.rs", "get_stake", impl="StakeSet", mode="assume", **ss_get_stake()),
+        Fn(S, "coin", impl="SealedState", home="C07", implicit_props=("C09", "C02"), requires=[C("wf", "self.0.coins.wf()")],
+           ensures=[C("is", "res == (if self.0.coins@.coins.contains_key(id) { Some(self.0.coins@.coins[id]) } else { None::<CoinDataHeight> })", "C02", "C07")]),
+        Fn(S, "history", impl="SealedState", home="C07", implicit_props=("C09", "C07"),
+           ensures=[C("is", "res == (if self.0.history@.contains_key(height) { Some(self.0.history@[height]) } else { None::<Header> })", "C07")]),
+        Fn(S, "pool", impl="SealedState", home="C16", implicit_props=("C09", "C16"),
+           ensures=[C("is", "res == (if self.0.pools@.contains_key(key) { Some(self.0.pools@[key]) } else { None::<PoolState> })", "C16", "C15")]),
+        Fn(S, "stake", impl="SealedState", home="C13", implicit_props=("C09", "C13"),
+           ensures=[C("is", "res == (if self.0.stakes@.contains_key(key) { Some(self.0.stakes@[key]) } else { None::<StakeDoc> })", "C13")]),
+        Fn(S, "raw_stakes", impl="SealedState", home="C13", implicit_props=("C09", "C13"), ensures=[C("is", "res == self.0.stakes", "C13")]),
         Fn(S, "apply_tx", impl="UnsealedState", home="C02", implicit_props=("C09", "C02"),
            requires=[C("pre", "batch_pre(*old(self), seq![*tx])")],
            ensures=[C("noop", "res is Err ==> *final(self) == *old(self)", "C02"),
